@@ -28,6 +28,7 @@ class Gen:
         self.hostile = hostile
         self.counter = 0
         self.pool = ["alpha", "beta", "gamma", "_priv", "__dunder__", "Kls", "_Hidden"]
+        self.modname = "m"
 
     def name(self, prefix: str = "n") -> str:
         if self.rng.random() < self.dup_prob:
@@ -37,6 +38,22 @@ class Gen:
         if self.rng.random() < 0.3:
             self.pool.append(nm)
         return nm
+
+    def self_import(self, ind: str, in_class: bool) -> str:
+        """An import of the module's *own* path (the module is visited under the name ``modname``): at module level
+        ``from m import x [as x]`` binds a name to itself (no member), anywhere else - and under any other name - it is an
+        ordinary alias of a sibling definition."""
+        rng = self.rng
+        nm = rng.choice(self.pool)
+        src_mod = self.modname
+        if in_class and rng.random() < 0.3:
+            src_mod += "." + rng.choice(self.pool)  # from m.Kls import x (possibly the class being defined itself)
+        r = rng.random()
+        if r < 0.5:
+            return f"{ind}from {src_mod} import {nm}\n"
+        if r < 0.75:
+            return f"{ind}from {src_mod} import {nm} as {nm}\n"
+        return f"{ind}from {src_mod} import {nm} as {rng.choice(self.pool)}, {rng.choice(self.pool)}\n"
 
     def docstring(self, ind: str) -> str:
         r = self.rng.random()
@@ -213,7 +230,10 @@ class Gen:
             elif r < 0.72:
                 src += self.assignment(ind, in_class)
             elif r < 0.82:
-                src += ind + rng.choice([i for i in IMPORTS if not (in_class and "*" in i)]) + "\n"
+                if rng.random() < 0.25:
+                    src += self.self_import(ind, in_class)
+                else:
+                    src += ind + rng.choice([i for i in IMPORTS if not (in_class and "*" in i)]) + "\n"
             elif r < 0.94 and wdepth < 2:
                 src += self.wrapper(ind, depth, in_class, wdepth)
             elif not in_class and wdepth == 0:
